@@ -215,6 +215,22 @@ def main():
                 bad = judge.judge_iso(yv, None, inc, fn, lvl, obs)
                 if bad:
                     found.append(dict(case=dict(y=yv, w=None, inc=inc, functional=fn, level=lvl, increasing_given_as=repr(flag)), clauses=bad, observed=obs))
+        # float-level corner cases: levels with many significant digits next to k/m, blocks mixing huge and small magnitudes,
+        # subnormal responses, expectile levels next to 0 and 1
+        corner = [([1e9, 0.0], None, True, "quantile", 0.4999999), ([0.0, 1e9], None, False, "quantile", 0.4999999),
+                  ([4.0, 3.0, 2.0, 1.0], None, True, "quantile", 0.2499999), ([4.0, 3.0, 2.0, 1.0], None, True, "quantile", 0.7499999),
+                  ([1e17, 3.0, 1.0], None, True, "median", 0.5), ([1e17, 3.0, 1.0], None, True, "quantile", 0.5), ([1e9, 0.3, 0.1, 0.2], None, True, "quantile", 0.5),
+                  ([5e-324, 5e-324], None, True, "median", 0.5), ([1.5e-323, 1.5e-323, 1.5e-323], None, True, "quantile", 0.25), ([1e-323, 5e-324], None, True, "median", 0.5),
+                  ([1.0, 0.0], None, True, "expectile", 1e-10), ([1.0, 0.0], None, True, "expectile", 1 - 1e-10), ([3.0, 1.0, 2.0], [1.0, 2.0, 1.0], True, "expectile", 1e-9),
+                  ([1.0, 0.0], None, True, "mean", 0.5), ([1e17, 3.0, 1.0], None, True, "mean", 0.5)]
+        for yv, wv, inc, fn, lvl in corner:
+            if found or fn not in fset:
+                continue
+            tried += 1
+            d = dict(y=yv, w=wv, inc=inc, functional=fn, level=lvl)
+            bad, obs = judge_case(d)
+            if bad:
+                found.append(dict(case=d, clauses=bad, observed=obs))
         # the same fit through the estimator class, re-parameterised after construction
         for fn in fset:
             for inc in (True, False):
